@@ -88,9 +88,16 @@ def hold_fixed(spec, name):
 
 
 # ----------------------------------------------------------------------------- JSON helpers
+PDT = {"name": "torch.float64", "t": torch.float64}  # dtype of the leaf parameters (see c12.dtype_regime)
+
+
+def _fl(v):
+    """floats of a (possibly nested: one row per sample) list"""
+    return [_fl(x) for x in v] if isinstance(v, (list, tuple)) else float(v)
+
+
 def P(id_, vals, grad=False):
-    return {"id": id_, "type": "Parameter", "tensor": [float(v) for v in vals], "dtype": "torch.float64",
-            "requires_grad": bool(grad)}
+    return {"id": id_, "type": "Parameter", "tensor": _fl(vals), "dtype": PDT["name"], "requires_grad": bool(grad)}
 
 
 def TP(id_, transform, x, parameters=None):
@@ -98,6 +105,93 @@ def TP(id_, transform, x, parameters=None):
     if parameters is not None:
         d["parameters"] = parameters
     return d
+
+
+FULL = {
+    "Parameter": "torchtree.core.parameter.Parameter",
+    "TransformedParameter": "torchtree.core.parameter.TransformedParameter",
+    "Taxa": "torchtree.evolution.taxa.Taxa", "Taxon": "torchtree.evolution.taxa.Taxon",
+    "Alignment": "torchtree.evolution.alignment.Alignment", "SitePattern": "torchtree.evolution.site_pattern.SitePattern",
+    "NucleotideDataType": "torchtree.evolution.datatype.NucleotideDataType",
+    "JC69": "torchtree.evolution.substitution_model.nucleotide.JC69",
+    "HKY": "torchtree.evolution.substitution_model.nucleotide.HKY",
+    "GTR": "torchtree.evolution.substitution_model.nucleotide.GTR",
+    "ConstantSiteModel": "torchtree.evolution.site_model.ConstantSiteModel",
+    "WeibullSiteModel": "torchtree.evolution.site_model.WeibullSiteModel",
+    "InvariantSiteModel": "torchtree.evolution.site_model.InvariantSiteModel",
+    "UnRootedTreeModel": "torchtree.evolution.tree_model.UnRootedTreeModel",
+    "TimeTreeModel": "torchtree.evolution.tree_model.TimeTreeModel",
+    "ReparameterizedTimeTreeModel": "torchtree.evolution.tree_model.ReparameterizedTimeTreeModel",
+    "StrictClockModel": "torchtree.evolution.branch_model.StrictClockModel",
+    "SimpleClockModel": "torchtree.evolution.branch_model.SimpleClockModel",
+    "TreeLikelihoodModel": "torchtree.evolution.tree_likelihood.TreeLikelihoodModel",
+}
+for _k in ("ConstantCoalescentModel", "ExponentialCoalescentModel", "PiecewiseConstantCoalescentModel",
+           "PiecewiseConstantCoalescentGridModel", "PiecewiseLinearCoalescentGridModel"):
+    FULL[_k] = "torchtree.evolution.coalescent." + _k
+
+
+def restyle(js):
+    """the same JSON written another way: full dotted type names, keys in reverse order"""
+    if isinstance(js, dict):
+        out = {}
+        for k in reversed(list(js.keys())):
+            v = js[k]
+            if k == "type" and isinstance(v, str):
+                v = FULL.get(v, v)
+            out[k] = restyle(v)
+        return out
+    if isinstance(js, list):
+        return [restyle(v) for v in js]
+    return js
+
+
+def hoist(js, dic, process_object, keep=()):
+    """process every nested object FIRST, on its own, and replace it by a reference to its id: inline vs
+    referenced sub-objects must give the same model"""
+    if not isinstance(js, dict):
+        return js
+    out = {}
+    for k, v in js.items():
+        if isinstance(v, dict) and "id" in v and "type" in v and k not in keep:
+            process_object(hoist(v, dic, process_object), dic)
+            out[k] = v["id"]
+        else:
+            out[k] = v
+    return out
+
+
+def route_eligible(spec):
+    if spec["family"] == "like":
+        return (spec["subst"] in ("JC69", "HKY", "GTR") and spec["tree"]["kind"] in ("unrooted", "time", "ratio")
+                and spec["seqkind"] == "nuc")
+    if spec["family"] == "coal":
+        return (spec["kind"] in ("constant", "exponential", "skyride", "skygrid", "pwlinear")
+                and spec["tree"]["kind"] in ("time", "ratio") and not spec["theta_tp"])
+    return False
+
+
+def _param(id_, vals, grad):
+    from torchtree.core.parameter import Parameter
+
+    return Parameter(id_, torch.tensor(_fl(vals), dtype=PDT["t"], requires_grad=grad))
+
+
+def _tree_ctor(t, vals, grad, dic):
+    """trees through the json_factory helpers of the tree classes (+ from_json), as /repo/test does"""
+    from torchtree.evolution.tree_model import ReparameterizedTimeTreeModel, TimeTreeModel, UnRootedTreeModel
+
+    names = ["T%d" % i for i in range(t["n"])]
+    taxa = dict(zip(names, [float(d) for d in t["dates"]]))
+    if t["kind"] == "unrooted":
+        js = UnRootedTreeModel.json_factory("tree", t["newick"], P("bl", vals["bl"], grad), taxa)
+        return UnRootedTreeModel.from_json(js, dic)
+    if t["kind"] == "time":
+        js = TimeTreeModel.json_factory("tree", t["newick"], P("heights", vals["heights"], grad), taxa)
+        return TimeTreeModel.from_json(js, dic)
+    js = ReparameterizedTimeTreeModel.json_factory("tree", t["newick"], taxa, ratios=P("ratios", vals["ratios"], grad),
+                                                   root_height=P("root", vals["root"], grad))
+    return ReparameterizedTimeTreeModel.from_json(js, dic)
 
 
 def taxa_json(dates):
@@ -375,12 +469,60 @@ def make_like(spec):
     _imports()
     from torchtree.core.utils import process_object
 
-    def make(vals, grad):
+    def make_ctor(vals, grad):
+        from torchtree.evolution.alignment import Alignment, Sequence
+        from torchtree.evolution.branch_model import SimpleClockModel, StrictClockModel
+        from torchtree.evolution.datatype import NucleotideDataType
+        from torchtree.evolution.site_model import ConstantSiteModel, InvariantSiteModel, WeibullSiteModel
+        from torchtree.evolution.site_pattern import SitePattern
+        from torchtree.evolution.substitution_model import GTR, HKY, JC69
+        from torchtree.evolution.tree_likelihood import TreeLikelihoodModel
+
         dic = {}
-        process_object(_datatype_obj(spec["seqkind"]), dic)
+        t = spec["tree"]
+        tm = _tree_ctor(t, vals, grad, dic)
+        ps = {k: dic[k] for k in _tree_leafnames(t["kind"])}
+        for k in spec["x"]:
+            if k not in ps:
+                ps[k] = _param(k, vals[k], grad)
+        taxa = dic["taxa"]
+        al = Alignment("al", [Sequence("T%d" % i, q) for i, q in enumerate(spec["seqs"])], taxa, NucleotideDataType(None))
+        sp = SitePattern("sp", al)
+        su = spec["subst"]
+        subst = JC69("subst") if su == "JC69" else (
+            HKY("subst", ps["kappa"], ps["freqs"]) if su == "HKY" else GTR("subst", ps["rates6"], ps["freqs"]))
+        si = spec["site"]
+        if si.startswith("const"):
+            site = ConstantSiteModel("site", ps.get("mu"))
+        elif si.startswith("weibull"):
+            site = WeibullSiteModel("site", ps["shape"], spec["categories"], invariant=ps.get("pinv"), mu=ps.get("mu"))
+        else:
+            site = InvariantSiteModel("site", ps["pinv"], ps.get("mu"))
+        clock = None
+        if _rooted(t["kind"]):
+            clock = (StrictClockModel("clock", ps["rate"], tm) if spec.get("clock", "strict") == "strict"
+                     else SimpleClockModel("clock", ps["rates"], tm))
+        # positional for the mandatory arguments, keywords for the optional ones
+        m = TreeLikelihoodModel("like", sp, tm, subst, site, clock_model=clock,
+                                use_ambiguities=spec["use_ambiguities"], use_tip_states=spec["tip_states"])
+        if spec["rescale"]:
+            m.rescale = True
+        ev = _tree_events(tm) if _rooted(t["kind"]) else None
+        return Built(m, {k: ps[k] for k in spec["x"]}, ev, t["n"])
+
+    def make(vals, grad):
+        route = spec.get("route", "json")
+        if route == "ctor":
+            return make_ctor(vals, grad)
+        dic = {}
+        st = restyle if route == "ref" else (lambda z: z)
+        process_object(st(_datatype_obj(spec["seqkind"])), dic)
         dtid = {"nuc": "nucleotide", "codon": "codon", "aa": "aa", "gen3": "gen3"}[spec["seqkind"]]
         t = spec["tree"]
-        tm = process_object(_tree_json(t, vals, grad), dic)
+        tjs = st(_tree_json(t, vals, grad))
+        if route == "ref":
+            tjs = hoist(tjs, dic, process_object)
+        tm = process_object(tjs, dic)
         js = {"id": "like", "type": "TreeLikelihoodModel", "tree_model": "tree",
               "site_model": _site_json(spec, vals, grad), "substitution_model": _subst_json(spec, vals, grad),
               "site_pattern": {"id": "sp", "type": "SitePattern",
@@ -395,6 +537,8 @@ def make_like(spec):
             else:
                 js["branch_model"] = {"id": "clock", "type": "SimpleClockModel", "tree_model": "tree",
                                       "rate": P("rates", vals["rates"], grad)}
+        if route == "ref":
+            js = hoist(restyle(js), dic, process_object)
         m = process_object(js, dic)
         if spec["rescale"]:
             m.rescale = True
@@ -515,22 +659,49 @@ def make_coal(spec):
         if t["kind"] == "fake":
             n = t["n"]
             nh = vals["nh"]
-            order = sorted(range(2 * n - 1), key=lambda i: nh[i])
-            js["times"] = [nh[i] for i in order]
+            nh0 = nh[0] if isinstance(nh[0], (list, tuple)) else nh
+            order = sorted(range(2 * n - 1), key=lambda i: nh0[i])
+            js["times"] = [nh0[i] for i in order]
             js["events"] = [1 if i < n else 0 for i in order]
             m = process_object(js, dic)
             p = m.tree_model._node_heights
             # the FakeTreeModel's own Parameter is the leaf: give it exactly the requested heights
             # (taxa first, then internal nodes; from_json sorted them inside each block)
-            p.tensor = torch.tensor([float(v) for v in nh], dtype=torch.float64, requires_grad=grad)
+            p.tensor = torch.tensor(_fl(nh), dtype=PDT["t"], requires_grad=grad)
             params = {k: dic[k] for k in spec["x"] if k != "nh"}
             params["nh"] = p
             ev = lambda: torch.cat((p.tensor.detach(), torch.tensor(grid, dtype=torch.float64)))  # noqa: E731
+        elif spec.get("route") == "ctor":
+            import torchtree.evolution.coalescent as CO
+
+            tm = _tree_ctor(t, vals, grad, dic)
+            params = {k: dic[k] for k in _tree_leafnames(t["kind"])}
+            for k in spec["x"]:
+                if k not in params:
+                    params[k] = _param(k, vals[k], grad)
+            kind = spec["kind"]
+            gp = _param(None, grid, False) if grid else None
+            if kind == "constant":
+                m = CO.ConstantCoalescentModel("coal", params["theta"], tm)
+            elif kind == "exponential":
+                m = CO.ExponentialCoalescentModel("coal", params["theta"], params["growth"], tree_model=tm)
+            elif kind == "skyride":
+                m = CO.PiecewiseConstantCoalescentModel("coal", theta=params["theta"], tree_model=tm)
+            elif kind == "skygrid":
+                m = CO.PiecewiseConstantCoalescentGridModel("coal", params["theta"], gp, tm)
+            else:
+                m = CO.PiecewiseLinearCoalescentGridModel("coal", params["theta"], grid=gp, tree_model=tm)
         else:
-            tm = process_object(_tree_json(t, vals, grad), dic)
+            tjs = _tree_json(t, vals, grad)
             js["tree_model"] = "tree"
+            if spec.get("route") == "ref":
+                tm = process_object(hoist(restyle(tjs), dic, process_object), dic)
+                js = hoist(restyle(js), dic, process_object)
+            else:
+                tm = process_object(tjs, dic)
             m = process_object(js, dic)
             params = {k: dic[k] for k in spec["x"]}
+        if t["kind"] != "fake":
             ev = lambda: torch.cat((tm.node_heights.reshape(-1).detach(), torch.tensor(grid, dtype=torch.float64)))  # noqa: E731
         return Built(m, params, ev, t["n"])
 
@@ -667,7 +838,7 @@ def make_bdsk(spec):
         if "r" in vals:
             js["removal_probability"] = P("r", vals["r"], grad)
         if "times" in spec:
-            js["times"] = {"id": "times", "type": "Parameter", "tensor": spec["times"], "dtype": "torch.float64"}
+            js["times"] = {"id": "times", "type": "Parameter", "tensor": spec["times"], "dtype": PDT["name"]}
         mdl = process_object(js, dic)
         m = spec["m"]
 
@@ -765,7 +936,7 @@ class _Leaf:
     """a bare leaf tensor with the .tensor/.grad interface of a Parameter"""
 
     def __init__(self, vals, grad):
-        self.tensor = torch.tensor([float(v) for v in vals], dtype=torch.float64, requires_grad=grad)
+        self.tensor = torch.tensor(_fl(vals), dtype=PDT["t"], requires_grad=grad)
 
     @property
     def grad(self):
@@ -826,7 +997,7 @@ def make_gmrf(spec):
         if spec["variant"] == "tree":
             tm = process_object(_tree_json(spec["tree"], vals, grad), dic)
         field = process_object(P("field", vals["field"], grad), dic)
-        w = torch.tensor(spec["weights"], dtype=torch.float64) if "weights" in spec else None
+        w = torch.tensor(spec["weights"], dtype=PDT["t"]) if "weights" in spec else None
         if spec["integrated"]:
             m = GMRFGammaIntegrated("gmrf", field, spec["shape"], spec["rate"], tm, w, spec["rescale"])
         else:
@@ -1175,8 +1346,97 @@ def make_joint(spec):
     return Scen(spec, make)
 
 
+# ----------------------------------------------------------------------------- the JSON the CLI emits
+CLI_CONFIGS = [
+    ["map", "--clock", "strict", "--coalescent", "constant", "--heights_init", "tree", "-m", "JC69"],
+    ["map", "--clock", "strict", "--coalescent", "skyride", "--heights_init", "tree", "-m", "HKY", "-C", "4"],
+    ["hmc", "--clock", "strict", "--coalescent", "skygrid", "--grid", "4", "--cutoff", "8", "--heights_init", "tree",
+     "-m", "GTR", "-C", "3"],
+    ["hmc", "--clock", "strict", "--coalescent", "constant", "--heights_init", "tree", "-m", "HKY", "-I"],
+    ["map", "-m", "GTR", "-C", "4"],
+    ["hmc", "-m", "HKY"],
+]
+
+
+def gen_cli(rng, which=None):
+    """the posterior (`joint`) of a configuration written by torchtree-cli itself, loaded the way `torchtree`
+    loads it; leaves = every floating-point Parameter of the file (the unconstrained ones the CLI creates)"""
+    _imports()
+    import c19_cli as C
+    from torchtree.core.parameter import Parameter
+
+    cfg = list(CLI_CONFIGS[rng.randrange(len(CLI_CONFIGS)) if which is None else which])
+    d = C.data_dir()
+    rooted = "--clock" in cfg
+    argv = [cfg[0], "-i", str(d / "aln.fa"), "-t", str(d / ("rooted.nwk" if rooted else "unrooted.nwk"))] + cfg[1:] \
+        + ["--stem", str(d / "stem")]
+    _js, text, _recs, _wc = C.run_cli(argv, record=False)
+    dic, _objs = C.dry_load(text)
+    x, b = {}, {}
+    for k, v in dic.items():
+        if type(v) is Parameter and v.tensor.is_floating_point() and v.tensor.dim() == 1 and not k.startswith("hmc."):
+            x[k] = [float(t) + rng.uniform(-0.15, 0.15) for t in v.tensor]
+            b[k] = [None, None]
+    return {"family": "cli", "argv": cfg, "text": text, "rooted": rooted, "x": x, "bounds": b,
+            "name": "cli/%s/%s" % (cfg[0], "_".join(a.strip("-") for a in cfg[1:]) or "default")}
+
+
+def make_cli(spec):
+    _imports()
+    import c19_cli as C
+
+    def make(vals, grad):
+        dic, _objs = C.dry_load(spec["text"])
+        for k, v in vals.items():
+            dic[k].tensor = torch.tensor(_fl(v), dtype=PDT["t"], requires_grad=grad)
+        m = dic["joint"]
+        ev = None
+        if spec["rooted"]:
+            tm = dic["tree"]
+            co = dic.get("coalescent")
+            grid = [float(g) for g in co.grid.tensor] if co is not None and hasattr(co, "grid") else []
+            ev = lambda: torch.cat((tm.node_heights.reshape(-1).detach(), torch.tensor(grid, dtype=torch.float64)))  # noqa: E731
+        return Built(m, {k: dic[k] for k in vals}, ev, 6 if spec["rooted"] else 0)
+
+    return Scen(spec, make)
+
+
+# ----------------------------------------------------------------------------- unit values, minimum sizes
+_UNIT = {"theta": 1.0, "logtheta": 0.0, "shape": 1.0, "mu": 1.0, "rate": 1.0, "precision": 1.0, "field": 0.0,
+         "zratios": 0.0, "ratios": 0.5, "pinv": 0.5, "R": 1.0, "delta": 1.0, "s": 0.5, "rho": 0.5,
+         "cgd_alpha": 1.0, "cgd_c": 1.0, "cgd_shape": 1.0, "cgd_rate": 1.0, "gmrf_prec": 1.0, "logbl": 0.0,
+         "lambda": 1.0, "psi": 1.0}
+
+
+def _one_category(spec):
+    spec["categories"] = 1
+    spec["name"] += "/K=1"
+    return spec
+
+
+def unitize(spec):
+    """values whose transform is exactly 0 / 1 (log 1, logit 1/2, exp 0): every leaf in the table is put there"""
+    fixed = set(spec.get("fixed", []))
+    hit = False
+    for k, v in spec["x"].items():
+        if k in _UNIT and k not in fixed:
+            spec["x"][k] = [_UNIT[k]] * len(v)
+            hit = True
+    if hit:
+        spec["name"] += "/unit-values"
+    return spec
+
+
+def gen_eigh_degenerate(rng):
+    """HKY with uniform base frequencies: the symmetrised rate matrix has a repeated eigenvalue"""
+    spec = gen_like(rng, "HKY", "const", "unrooted", 0, ambig=False, n=4, sites=8)
+    spec["x"]["freqs"] = [0.25, 0.25, 0.25, 0.25]
+    spec["name"] = "like/HKY/const/unrooted/uniform-frequencies(repeated eigenvalue)"
+    return spec
+
+
 # ----------------------------------------------------------------------------- dispatch
-_MAKERS = {"bdmodel": make_bdmodel, "like": make_like, "coal": make_coal, "bdsk": make_bdsk, "bd": make_bd, "gmrf": make_gmrf,
+_MAKERS = {"cli": make_cli, "bdmodel": make_bdmodel, "like": make_like, "coal": make_coal, "bdsk": make_bdsk, "bd": make_bd, "gmrf": make_gmrf,
            "gmrfcov": make_gmrfcov, "ctmc": make_ctmc, "cgd": make_cgd, "jac_tree": make_jac_tree,
            "jac_tp": make_jac_tp, "dist": make_dist, "misc": make_misc, "joint": make_joint}
 
@@ -1339,6 +1599,29 @@ def catalogue(rng, tier):
     add(lambda: gen_dist(rng, "lognormal", "exp"))
     for w in ("mvn", "scale_mixture", "scale_mixture_slab", "bridge"):
         add(lambda w=w: gen_misc(rng, w))
+
+    # --- posteriors written by torchtree-cli itself (map / hmc), loaded as `torchtree` loads them
+    for w in (range(len(CLI_CONFIGS)) if thorough else rng.sample(range(len(CLI_CONFIGS)), 2)):
+        add(lambda w=w: gen_cli(rng, w))
+
+    # --- values whose transform is exactly 0 or 1, and minimum sizes (3 taxa, one category, one epoch)
+    uv = [lambda: unitize(gen_like(rng, "HKY_sb", "weibull_inv", "ratio_tp", rng.randrange(2))),
+          lambda: unitize(gen_like(rng, "JC69", "weibull_mu", "unrooted_exp", rng.randrange(2))),
+          lambda: unitize(gen_coal(rng, "skyride", "ratio_tp", True)),
+          lambda: unitize(gen_coal(rng, "skygrid", "ratio", False)),
+          lambda: unitize(gen_coal(rng, "constant", "time", rng.random() < 0.5)),
+          lambda: unitize(gen_gmrf(rng, "plain", False)),
+          lambda: unitize(gen_bdsk(rng, "ratio", 2, True, True, False, False)),
+          lambda: unitize(gen_cgd(rng, "unrooted_exp")),
+          lambda: unitize(gen_ctmc(rng, "ratio")),
+          lambda: gen_like(rng, "HKY", "weibull", "unrooted", rng.randrange(2), n=3),
+          lambda: gen_like(rng, "JC69", "const", "ratio", rng.randrange(2), n=3),
+          lambda: _one_category(gen_like(rng, "GTR", "weibull", "time", rng.randrange(2))),
+          lambda: gen_coal(rng, "skyride", "ratio", False, n=3),
+          lambda: gen_coal(rng, "constant", "time", False, n=2),
+          lambda: gen_coal(rng, "skygrid", "fake", False, n=2),
+          lambda: gen_bdsk(rng, "time", 1, False, True, False, False, n=3)]
+    c.extend(uv if thorough else rng.sample(uv, 8))
 
     # --- joint models
     jcfg = [(s, si, co, r) for s in ("JC69", "HKY_sb", "GTR_sb") for si in ("const", "weibull", "weibull_inv")
